@@ -28,7 +28,9 @@ CLAUSE = {1: "result_returned", 2: "class_changed", 3: "message_lost", 4: "ident
 TRUSTED = [
     "translator/c09.py (for the 41 functions on the paths from the entry points to a model call: every except handler, "
     "finally block and with item as a shape; which functions refer to which; the list of context managers taken as "
-    "non-suppressing: standard library, numpy, dask, tqdm, xarray)",
+    "non-suppressing: standard library, numpy, dask, tqdm, xarray; its normalisations: helper calls followed to depth 3, "
+    "names bound once and imported names replaced by what they are bound to, constructs inside handler / finally bodies "
+    "judged through that handler / finally block, helpers that name no function of the paths left out)",
     "the paths themselves (Model/Failure.v all_entry_paths: entry point x mode -> functions) are hand-written from the "
     "source; the translator checks that every function exists and refers to the next one; calls that go through pygmo/dask "
     "(lib_edges) are taken on trust",
@@ -217,6 +219,10 @@ def calib_cases(r, cls_cycle, n_scen, entries=("run_mode",), max_islands=1):
                               pop=pop, evolutions=evol, islands=islands,
                               runs=[dict(id=i, t=None, q=None, tag=None, params=[]) for i in range(total + 1)],
                               faults=[f], scheduler="threads"))
+            if entry == "method" and (n >= init or len(cases) % 2 == 0):
+                # Calibration.run_calibration(with_progress_bar=False) - the only way to switch the bar off; the same
+                # behaviour is due (the other entry points cover the evolutions with the bar on)
+                cases[-1]["no_bar"] = True
     return cases
 
 
@@ -381,7 +387,7 @@ def emit_file(pairs) -> str:
 
 def slim(c):
     return {k: c[k] for k in ("mode", "entry", "outputs", "debug", "cleanup_fails", "chained", "pmode", "seed", "groups", "nsteps",
-                              "params", "runs", "faults", "scheduler", "pop", "evolutions", "islands")
+                              "params", "runs", "faults", "scheduler", "pop", "evolutions", "islands", "no_bar")
             if k in c}
 
 
@@ -510,7 +516,7 @@ def correspondence(ctx: Ctx, cases, tag="c", confirm=True):
             ctx.dist("scheduler", c.get("scheduler"))
         if c["mode"] == "calib":
             ctx.dist("islands", c.get("islands", 1))
-        for flag in ("debug", "cleanup_fails", "chained"):
+        for flag in ("debug", "cleanup_fails", "chained", "no_bar"):
             if c.get(flag):
                 ctx.dist("flags", flag)
         ctx.dist("faults", len(c["faults"]))
@@ -558,8 +564,10 @@ def run(ctx: Ctx):
     ctx.log(f"{len(cases)} fault-injection cases")
     mism, viol, pairs = correspondence(ctx, cases)
     record(ctx, mism, viol, pairs)
+    confirm_new(ctx)
     if ctx.broken and not new_violations(ctx):
         search(ctx)
+        confirm_new(ctx)
 
 
 def record(ctx, mism, viol, pairs):
@@ -604,6 +612,51 @@ def record(ctx, mism, viol, pairs):
 def new_violations(ctx: Ctx):
     fs = core.load_findings(ctx.prop)
     return [v for v in ctx.violations if not any(core.finding_matches(e, v) for e in fs)]
+
+
+def confirm_new(ctx: Ctx, per_class=3, classes=12):
+    """A VIOLATION line with a replay file claims a concrete failing input: a behavioural fact. Every violation of
+    this module is the specification (evaluated in Coq) judging what one run of the implementation did - never
+    something read off the translated tables (those only produce broken obligations, which go through the search
+    and end as `no-failing-input-found`). This step makes the claim reproducible as well: the cases of every NEW
+    class of violation (signature x clause, as core.finish groups them) are run once more; only those that violate
+    the same clause again are kept, and they come first in their class. A class none of whose cases violates again
+    becomes a broken correspondence obligation (no concrete input is claimed for it)."""
+    fs = core.load_findings(ctx.prop)
+    known = [v for v in ctx.violations if any(core.finding_matches(e, v) for e in fs)]
+    new = [v for v in ctx.violations if not any(core.finding_matches(e, v) for e in fs)]
+    if not new:
+        return
+    by_class: dict[str, list] = {}
+    for v in new:
+        by_class.setdefault(json.dumps(v.sig, sort_keys=True) + v.clause, []).append(v)
+    todo = []
+    for key in list(by_class)[:classes]:
+        todo += by_class[key][:per_class]
+    if all(id(v) in CONFIRMED for v in todo):
+        return
+    _, viol, _ = correspondence(ctx, [v.case for v in todo], tag="v" + str(len(CONFIRMED)), confirm=False)
+    again = {(json.dumps(slim(c), sort_keys=True), CLAUSE.get(code, f"code{code}")) for c, _, code in viol}
+    kept, lost = [], 0
+    for key in list(by_class)[:classes]:
+        ok = [v for v in by_class[key][:per_class] if (json.dumps(v.case, sort_keys=True), v.clause) in again]
+        for v in ok:
+            CONFIRMED.add(id(v))
+        if ok:
+            kept += ok
+        else:
+            lost += 1
+            v = by_class[key][0]
+            ctx.broken.append(Broken("correspondence", f"{v.clause}: observed once, not on the second run of the same case",
+                                     v.what, v.case))
+    ctx.cov["violation_classes_confirmed_by_second_run"] = len([1 for k in list(by_class)[:classes]]) - lost
+    ctx.cov["violation_classes_not_reproduced"] = ctx.cov.get("violation_classes_not_reproduced", 0) + lost
+    ctx.log(f"{len(by_class)} new class(es) of violation: {len(kept)} case(s) confirmed by a second run, "
+            f"{lost} class(es) not reproduced")
+    ctx.violations[:] = known + kept
+
+
+CONFIRMED: set = set()
 
 
 def search(ctx: Ctx):
